@@ -155,7 +155,7 @@ def one(emit, cid, solver, df, pen, sym, rng, sample):
     wts = rng.uniform(0.4, 2.0, size=p)
     if pen == "WeightedL1" and rng.random() < 0.6:
         wts[rng.choice(p, max(1, p // 4), replace=False)] = 0.0         # unpenalised features
-    groups = C.make_groups(rng, p, style=str(rng.choice(["contig", "perm"])))
+    groups = C.make_groups(rng, p, style=str(rng.choice(["contig", "perm", "trap"])))
     gw = rng.uniform(0.4, 2.0, size=len(groups))
     knobs = {}
     if solver in ("AndersonCD", "ProxNewton", "GroupBCD", "GroupProxNewton", "MultiTaskBCD"):
